@@ -84,7 +84,42 @@ def one(rng):
                 nontrivial=multi, tags=["markov"] if mo else ["deterministic"])
 
 
+def cli_big(rng):
+    """`treetools grammar` on a treebank of more than a hundred sentences: the counts in the written grammar balance against the trees"""
+    import io
+    import cli
+    from impl import treeoutput, clone
+    base = gram.gen_treebank(rng, kmax=4, nmax=6, disc=rng.random() < 0.5)
+    n = rng.choice([100, 101, 150, 201, 230])
+    ts = []
+    text = ""
+    for i in range(n):
+        c = clone(base[i % len(base)])
+        c.data['sid'] = i + 1
+        c.data['label'] = "VROOT"
+        s = io.StringIO()
+        treeoutput.export(c, s)
+        text += s.getvalue()
+        ts.append(c)
+    with quiet():
+        _, lex = gram.extract_all(ts)
+    gtype = rng.choice(["treebank", "leftright", "optimal"])
+    with cli.Scratch() as sc:
+        src = sc.write("tb.export", text)
+        rc, _, err = cli.run_cli(["grammar", src, sc.path("g"), gtype, "--dest-format", "pmcfg"])
+        if rc != 0:
+            l = Line("pred", "P.C08.file", ["", "", ""], note="command failed: " + err[-200:])
+            l.expect = "command-must-succeed"
+            return Case("cli-big", {"sentences": n, "gramtype": gtype}, [l], nontrivial=True)
+        gl = gram.file_lines(sc.path("g") + ".pmcfg")
+    enc = "|".join(proto.enc_tree(t) for t in ts)
+    lines = [Line("pred", "P.C08.file", [enc, gram.enc_lines(gl), gram.enc_lexicon(lex)])]
+    return Case("cli-big", {"sentences": n, "gramtype": gtype, "distinct_trees": [proto.pretty_tree(t) for t in base]}, lines, nontrivial=True)
+
+
 def gen(seed, tier, scale):
+    for i in range((4 if tier == "quick" else 40) * scale):
+        yield 700000 + i, cli_big(case_rng(seed, ID, 700000 + i))
     idx = 0
     for _ in range((1000 if tier == "quick" else 20000) * scale):
         rng = case_rng(seed, ID, idx)
